@@ -68,6 +68,12 @@ fn line_mismatch(what: &str, i: usize, l: &avt::Line, m: &MLine) -> Option<Misma
 /// and (primary screen) the scrollback.  `sb_tail`: how many of the newest scrollback lines to
 /// compare cell by cell (usize::MAX = all).
 pub fn compare_public(vt: &Vt, m: &Model, sb_tail: usize) -> Option<Mismatch> {
+    compare_public_opt(vt, m, sb_tail, false)
+}
+
+/// `trimmed`: the real terminal may have trimmed its scrollback (finite limit, fed through
+/// feed_str): what it retains must then be the newest part of the model's scrollback
+pub fn compare_public_opt(vt: &Vt, m: &Model, sb_tail: usize, trimmed: bool) -> Option<Mismatch> {
     if vt.size() != (m.cols, m.rows) {
         return mm(MisKind::Geometry, format!("size real {:?} model {:?}", vt.size(), (m.cols, m.rows)));
     }
@@ -94,6 +100,18 @@ pub fn compare_public(vt: &Vt, m: &Model, sb_tail: usize) -> Option<Mismatch> {
     if !m.alt {
         let lines = vt.lines();
         let sb = &lines[..lines.len() - m.rows];
+        if trimmed {
+            if sb.len() > m.sb.len() {
+                return mm(MisKind::Scrollback, format!("scrollback length real {} exceeds everything scrolled off so far ({})", sb.len(), m.sb.len()));
+            }
+            let off = m.sb.len() - sb.len();
+            for i in 0..sb.len() {
+                if let Some(x) = line_mismatch("scrollback", i, &sb[i], &m.sb[off + i]) {
+                    return Some(x);
+                }
+            }
+            return None;
+        }
         if sb.len() != m.sb.len() {
             return mm(MisKind::Scrollback, format!("scrollback length real {} model {}", sb.len(), m.sb.len()));
         }
